@@ -19,6 +19,7 @@ func init() {
 		Assumptions: []string{"a closed Done channel makes the select case ready", "close(ch) by the only sender-side owner"},
 		Run:         runC10,
 		Controls: []Control{
+			{Name: "merge-stage-asserts-before-ok", File: "pkg/resource/backpressure.go", Old: "\t\t\t\t\tif !ok {\n\t\t\t\t\t\treturn\n\t\t\t\t\t}\n\t\t\t\t\tnewMessage := *(newAny.(*CollectionChange))\n\t\t\t\t\toldMessage", New: "\t\t\t\t\tnewMessage := *(newAny.(*CollectionChange))\n\t\t\t\t\tif !ok {\n\t\t\t\t\t\treturn\n\t\t\t\t\t}\n\t\t\t\t\toldMessage", Expect: "R10.15"},
 			{Name: "collection-lossy-wrapper-inverted", File: "pkg/resource/collection.go", Old: "\tch := c.bus.Listen(ctx)\n\tif !config.Backpressure {\n", New: "\tch := c.bus.Listen(ctx)\n\tif config.Backpressure {\n", Expect: "R10.10"},
 			{Name: "send-results-read-the-other-way-round", File: "internal/minibus/bus.go", Old: "\t\tok, active := l.send(ctx, event)\n", New: "\t\tactive, ok := l.send(ctx, event)\n", Expect: "R10.9"},
 			{Name: "alive-flipped", File: "internal/minibus/bus.go", Old: "\treturn l.ctx.Err() == nil\n", New: "\treturn l.ctx.Err() != nil\n", Expect: "R10.9"},
@@ -68,6 +69,8 @@ func runC10(c *an.Ctx) {
 	shareAs(c, "R01.7", "R10.14", r017, func(k string) bool { return strings.Contains(k, "PullID") || strings.Contains(k, "Pull") }) // a single-item subscription watches the id the collection stores (shared with R01.7)
 	c.Min("R10.14", 1)
 	r1012(c, "R10.12")
+	r1015(c, "R10.15")
+	c.Min("R10.15", 1)
 	c.Min("R10.12", 30)
 }
 
@@ -1152,4 +1155,95 @@ func r1012(c *an.Ctx, rule string) {
 		c.Check(leaked == "", rule, an.FuncName(fn)+"|locks taken here are released on every exit", where, "",
 			fmt.Sprintf("the function returns at %s with %s still locked and no deferred unlock: every later user of that lock blocks forever", c.Prog.Fset.Position(where), leaked))
 	}
+}
+
+// r1015: a value received with the comma-ok form is touched only once ok is known to be true. The lossy stages end
+// when their input is closed (ok == false, value nil): a type assertion or dereference of the received value made
+// before that test panics in the stage's goroutine when a subscription with queued changes is cancelled - and a
+// panic in that goroutine takes the process down.
+func r1015(c *an.Ctx, rule string) {
+	n := 0
+	check := func(fn *ssa.Function) {
+		for _, f := range an.WithClosures(fn) {
+			assertGuarded := func(val, okv ssa.Value) {
+				for _, u := range an.Referrers(val) {
+					ta, isTA := u.(*ssa.TypeAssert)
+					if !isTA || ta.CommaOk {
+						continue
+					}
+					n++
+					guarded := false
+					for _, e := range an.GuardingEdges(ta) {
+						cond, want := e.If.Cond, true
+						for {
+							if un, isNot := cond.(*ssa.UnOp); isNot && un.Op == token.NOT {
+								cond, want = un.X, !want
+								continue
+							}
+							break
+						}
+						if cond == okv && e.Branch == want {
+							guarded = true
+						}
+					}
+					c.SawFunc(an.FuncName(fn))
+					c.Check(guarded, rule, fmt.Sprintf("%s|received value #%d is asserted only after ok was tested", an.FuncName(fn), n), ta.Pos(), "guarded by ok == true",
+						"the value received from the input is type-asserted before `ok` is tested: when the input closes (a cancelled subscription) the value is nil and the assertion panics in the stage's goroutine")
+				}
+			}
+			an.Instrs(f, func(in ssa.Instruction) {
+				if rcv, isRcv := in.(*ssa.UnOp); isRcv && rcv.Op == token.ARROW && rcv.CommaOk {
+					var val, okv ssa.Value
+					for _, u := range an.Referrers(rcv) {
+						if ex, isEx := u.(*ssa.Extract); isEx {
+							if ex.Index == 0 {
+								val = ex
+							} else {
+								okv = ex
+							}
+						}
+					}
+					if val != nil && okv != nil {
+						assertGuarded(val, okv)
+					}
+					return
+				}
+				sel, ok := in.(*ssa.Select)
+				if !ok {
+					return
+				}
+				recvIdx := 0
+				for _, st := range sel.States {
+					if st.Dir != types.RecvOnly {
+						continue
+					}
+					var val, okv ssa.Value
+					for _, u := range an.Referrers(sel) {
+						if ex, isEx := u.(*ssa.Extract); isEx {
+							if ex.Index == 2+recvIdx {
+								val = ex
+							}
+						}
+					}
+					for _, u := range an.Referrers(sel) {
+						if ex, isEx := u.(*ssa.Extract); isEx && ex.Index == 1 {
+							okv = ex
+						}
+					}
+					recvIdx++
+					if val == nil || okv == nil {
+						continue
+					}
+					assertGuarded(val, okv)
+				}
+			})
+		}
+	}
+	if fn := c.Prog.Func(resPkg, "", "mergeCollectionExcess"); fn != nil {
+		check(fn)
+	}
+	if fn := c.Prog.Func("internal/minibus", "", "DropExcess"); fn != nil {
+		check(fn)
+	}
+	c.Count("asserted_received_values", n)
 }
